@@ -90,7 +90,10 @@ SplitUrl(s0) ==
 \* ----------------------------------------------------------- split_netloc
 \* Python int() on ASCII text: optional surrounding whitespace, optional sign, digits with single
 \* underscores between digits.  Non-ASCII text (Unicode digits / spaces) is outside the model: "gray".
-AsciiSpace == {9, 10, 11, 12, 13, 32, 28, 29, 30, 31}
+\* int(str): Unicode white space above U+007F is first turned into ' ' (_PyUnicode_TransformDecimalAndSpaceToASCII), then the
+\* ASCII parser strips \t \n \v \f \r and ' ' at both ends (the ASCII separators U+001C..U+001F are NOT stripped)
+AsciiSpace == {9, 10, 11, 12, 13, 32}
+UniSpace == {133, 160, 5760} \cup (8192..8202) \cup {8232, 8233, 8239, 8287, 12288}
 RECURSIVE UnderscoreDigits(_, _)
 \* digits with optional single '_' between digits, starting at i expecting a digit
 UnderscoreDigits(t, i) ==
@@ -99,8 +102,9 @@ UnderscoreDigits(t, i) ==
   ELSE IF i = Len(t) THEN TRUE
   ELSE IF t[i + 1] = 95 THEN UnderscoreDigits(t, i + 2)
   ELSE UnderscoreDigits(t, i + 1)
-PyInt(text) ==
-  IF ~IsAscii(text) THEN [gray |-> TRUE]
+PyInt(text0) ==
+  LET text == [i \in 1..Len(text0) |-> IF text0[i] \in UniSpace THEN 32 ELSE text0[i]] IN
+  IF ~IsAscii(text) THEN [gray |-> TRUE]          \* decimal digits of other scripts: outside the model
   ELSE LET t1 == RStripSet(LStripSet(text, AsciiSpace), AsciiSpace)
            neg == t1 # <<>> /\ t1[1] = 45
            t2 == IF t1 # <<>> /\ t1[1] \in {43, 45} THEN Tail(t1) ELSE t1
